@@ -175,6 +175,7 @@ def run(P, R, tier):
     inert_rule(P, R)
     deadget_rule(P, R)
     mixarea_rule(P, R)
+    rescale_rule(P, R)
     R.rule("C20.psi", "every potential conversion is psi = 2 la ln10 R T/F (DDL, CCM) or psi = -la ln10 R T/F (CD-MUSIC planes), matching the selected model", minimum=12)
     R.rule("C20.sigma", "every charge-density conversion is sigma = q F/(A g) or q = sigma A g/F", minimum=15)
     S = RF.Rat.sym
@@ -902,3 +903,43 @@ def mixarea_rule(P, R):
             R.ok(RULE, m, "this + %s * addee" % ext)
         else:
             R.violation(RULE, m, "cxxSurfaceCharge::add: %s after the call is %r, not this.%s + %s * %s.%s" % (m, after(m), m, ext, add, m), file=f["file"], line=f["line"], function=f["q"])
+
+
+def rescale_rule(P, R):
+    """A surface related to a mineral or a kinetic reactant is re-scaled to the current amount of that reactant whenever the input is
+    tidied (update_min_surface / update_kin_surface).  Several site types may share one charge structure (Hfo_w and Hfo_s), so the loop
+    over the components meets the same charge structure more than once: its re-scaling must be idempotent - multiply(target / grams)
+    with `grams` read from that charge structure, which leaves grams == target however often it runs.  A relative factor (new sites /
+    old sites) is applied once per site type: area, charge balance and diffuse-layer content end up scaled by the factor squared."""
+    RULE = "C20.rescale"
+    R.rule(RULE, "update_min_surface / update_kin_surface: the charge structure is re-scaled by target / (its own grams), an idempotent factor", minimum=2)
+    n = 0
+    for q in ("Phreeqc::update_min_surface", "Phreeqc::update_kin_surface"):
+        f = P.one(q)
+        grams_defs = {}
+        for x in T.walk(f["body"]):
+            if x[0] == "Bin" and x[2] == "=" and T.is_node(T.strip_casts(x[3])) and T.strip_casts(x[3])[0] == "Ref":
+                r = T.strip_casts(x[4])
+                if T.is_node(r) and r[0] == "Call" and T.callee_name(r) == "Get_grams" and T.call_obj(r) is not None:
+                    grams_defs[T.strip_casts(x[3])[3]] = "".join(T.text(T.call_obj(r), -40).split())
+        for c in T.calls(f["body"]):
+            if T.callee_name(c) != "multiply" or T.call_obj(c) is None or "Charge" not in str(c[2].get("cls", "")) + str(c[2].get("q", "")):
+                continue
+            n += 1
+            obj = "".join(T.text(T.call_obj(c), -40).split())
+            inst = "%s@%d" % (q.split("::")[-1], c[1] - f["line"])
+            a = T.strip_casts(c[4][0]) if c[4] else None
+            while T.is_node(a) and a[0] == "Paren":
+                a = T.strip_casts(a[2])
+            ok = False
+            if T.is_node(a) and a[0] == "Bin" and a[2] == "/":
+                den = T.strip_casts(a[4])
+                if T.is_node(den) and den[0] == "Ref" and grams_defs.get(den[3]) == obj:
+                    ok = True
+            if ok:
+                R.ok(RULE, inst, "multiply(%s): denominator is %s->Get_grams()" % (T.text(a)[:40], obj))
+            else:
+                R.violation(RULE, inst, "the charge structure %s is re-scaled by `%s`, which is not target / (its own grams): two site types on one charge structure apply the "
+                            "factor twice (area and charge scaled by the factor squared)" % (obj, T.text(c[4][0])[:60] if c[4] else "?"), file=f["file"], line=c[1], function=q)
+    if n < 2:
+        R.anchor_missing(RULE, "re-scaling of the charge structure found %d times in update_min_surface / update_kin_surface" % n)
